@@ -268,13 +268,32 @@ def fails_when_released_table(ctx):
 
 class RemoveMapping:
     def __init__(self):
-        self.problems = []
+        self.problems = []      # about the sweep as a whole
+        self.role_problems = {"used": [], "shadowed": []}
         self.rows = []          # (valuation dict role->bool, outcome, site)
         self.sweep_loop = None
         self.flags = {}         # role -> ExistsLoop
-        self.am_removed_after_sweep = False
+        self.excl = {}          # role -> does the scan skip index i
+        self.am_removal = None  # "after" | "before" the sweep (exactly once on every return path), else None
         self.index_param = None
         self.removed_param = None
+
+    @property
+    def am_removed_after_sweep(self):
+        return self.am_removal == "after"
+
+    def covers(self, role):
+        """which mappings the scan for `role` looks at, relative to `all active mappings but the one being removed`:
+        'exact' | 'subset' (may miss one) | 'superset' (also sees the one being removed) | None (unknown)"""
+        if role not in self.excl or self.am_removal is None:
+            return None
+        ex = self.excl[role]
+        if self.am_removal == "after":
+            return "exact" if ex else "superset"
+        return "subset" if ex else "exact"
+
+    def all_problems(self):
+        return self.problems + self.role_problems["used"] + self.role_problems["shadowed"]
 
 
 def _tv_and(*xs):
@@ -311,7 +330,7 @@ def remove_mapping_analysis(ctx, K):
     if not il.complete or il.break_paths:
         R.problems.append("the sweep over mapped_output_keys does not visit every index (%s)" % (il.problems or "early exit"))
     k = T("index", il.list_term, il.index)
-    # inner existential loops
+    # inner existential scans written as loops
     inner = [hh for hh in body.loops() if hh != h and hh in body.loops()[h]]
     flags = {}
     for hh in inner:
@@ -319,12 +338,14 @@ def remove_mapping_analysis(ctx, K):
         if el.problems:
             R.problems.append("inner loop bb%d is not an existential scan: %s" % (hh, el.problems[:2]))
             continue
-        role = _flag_role(el, body, i_par, k)
+        role, excl = _flag_role(el, i_par, k)
         if role is None:
-            R.problems.append("inner scan bb%d (%s) does not have the shape `exists j != i: AM[j].<from|to> contains k`" % (hh, el.flag_name))
+            R.problems.append("inner scan bb%d (%s) does not have the shape `exists [j != i:] AM[j].<from|to> contains k`" % (hh, el.flag_name))
             continue
         flags[T("loopvar", hh, el.flag, el.flag_name)] = role
         R.flags[role] = el
+        R.excl[role] = excl
+    any_atoms = {}
     # flag initial values: false before each scan (dominating assignment on the sweep path)
     for p in il.cont_paths:
         fx = K._one(body, p, "x", None)
@@ -346,6 +367,21 @@ def remove_mapping_analysis(ctx, K):
                 val["held"] = v
             elif isinstance(a, tuple) and a[0] == "eq" and {mir.strip(a[1]), mir.strip(a[2])} == {k, rk_par}:
                 val["is_removed"] = v
+            elif isinstance(a, tuple) and a[0] == "call" and mir.method_name(a[1]) == "any":
+                # the scan written as active_mappings.iter().any(|m| m.<from|to>.contains(&k))
+                if a not in any_atoms:
+                    el = tables.any_scan(ctx.body, a)
+                    role = None
+                    if not el.problems:
+                        role, excl = _flag_role(el, i_par, k)
+                    any_atoms[a] = role
+                    if role is not None:
+                        R.flags[role] = el
+                        R.excl[role] = excl
+                if any_atoms[a] is None:
+                    unknown.append(show(a)[:60])
+                else:
+                    val[any_atoms[a]] = v
             else:
                 unknown.append(show(a)[:60])
         # the flag must be false when its scan starts
@@ -355,7 +391,7 @@ def remove_mapping_analysis(ctx, K):
                 if fl:
                     sets = [x for x in p.events[:p.events.index(e)] if x.kind == "set" and x.a == fl[0][2]]
                     if not sets or const_int(sets[-1].b) != 0:
-                        R.problems.append("flag %s is not initialised to false before its scan" % fl[0][3])
+                        R.role_problems[flags[fl[0]]].append("flag %s is not initialised to false before its scan" % fl[0][3])
         effs = [e for e in fx.effects if e.kind in ("EMIT", "ADD", "DEL", "RETAIN", "CALL") or e.kind.startswith("OTHERMUT")]
         emit = [e for e in effs if e.kind == "EMIT"]
         add = [e for e in effs if e.kind == "ADD"]
@@ -371,58 +407,82 @@ def remove_mapping_analysis(ctx, K):
         if unknown:
             R.problems.append("unrecognised condition in the sweep: %s" % unknown[:2])
         R.rows.append((val, outcome, effs[0].ev.span if effs else None))
-    # AM.remove(i) happens after the sweep, on every return path, exactly once, with the index parameter
+    # AM.remove(i): exactly once on every return path, with the index parameter, either after the complete sweep
+    # or before it starts -- never inside
     fn_paths = [p for p in mir.walk_function(body) if p.outcome[0] == "return"]
-    okall = bool(fn_paths)
+    where = set()
     for p in fn_paths:
         fx = K._one(body, p, "fn", None)
         loops_seen = [e.a for e in p.events if e.kind == "loop"]
         dels = [e for e in fx.effects if e.kind == "DEL" and e.lst == "AM"]
         others = [e for e in fx.effects if e.lst == "AM" and e.kind != "DEL"]
         if len(dels) != 1 or others or dels[0].aux != i_par or h not in loops_seen:
-            okall = False
+            where.add(None)
             continue
         pos_loop = [i for i, e in enumerate(p.events) if e.kind == "loop" and e.a == h][0]
-        if dels[0].pos < pos_loop:
-            okall = False
-    R.am_removed_after_sweep = okall
+        where.add("before" if dels[0].pos < pos_loop else "after")
+    # ... and nothing inside the sweep touches active_mappings
+    for p in il.cont_paths + il.break_paths:
+        fx = K._one(body, p, "x", None)
+        if any(e.lst == "AM" for e in fx.effects):
+            where.add(None)
+    R.am_removal = where.pop() if len(where) == 1 else None
     return R
 
 
-def _flag_role(el, body, i_par, k):
-    """exists j in 0..len(AM), j != i, AM[j].<field> contains k  ->  'used' (field to) / 'shadowed' (field from)"""
+def _flag_role(el, i_par, k):
+    """exists m among active_mappings [other than index i]: m.<field> contains k
+       -> ('used' (field to) | 'shadowed' (field from), skips_index_i)   or (None, None)
+    the scan may run over the index range (AM[j]) or over the elements (for m in &AM / iter().any)"""
     it = el.iter_term
     L = _range_of(it)
-    if L is None or list_of(L) != "AM":
-        return None
-    # one setting path: (j == i) False, (k in AM[j].F) True ; continuing paths: j == i True | contains False
+    by_index = L is not None
+    if by_index:
+        if list_of(L) != "AM":
+            return None, None
+    else:
+        if not (isinstance(it, tuple) and it[0] == "iter" and list_of(it[1]) == "AM"):
+            return None, None
     roles = set()
+    excls = set()
+
+    def is_elem(t, j=None):
+        t = mir.strip(t)
+        if by_index:
+            return isinstance(t, tuple) and t[0] == "index" and t[1] == L and isinstance(t[2], tuple) and t[2][0] == "elem" and (j is None or t[2] == j)
+        return isinstance(t, tuple) and t[0] == "elem" and t[1] == it
+
     for gs in el.set_paths:
         pos = [(a, v) for a, v in gs if v is True]
         neg = [(a, v) for a, v in gs if v is False]
-        if len(pos) != 1 or len(neg) != 1:
-            return None
+        if len(pos) != 1 or len(neg) > 1:
+            return None, None
         a = pos[0][0]
-        n = neg[0][0]
-        if not (isinstance(n, tuple) and n[0] == "eq" and i_par in (n[1], n[2])):
-            return None
-        j = n[2] if n[1] == i_par else n[1]
-        if not (isinstance(j, tuple) and j[0] == "elem"):
-            return None
-        if not (isinstance(a, tuple) and a[0] == "in" and mir.strip(a[1]) == k and isinstance(a[2], tuple) and a[2][0] == "field"
-                and a[2][1] == T("index", L, j)):
-            return None
+        j = None
+        if neg:
+            n = neg[0][0]
+            if not by_index or not (isinstance(n, tuple) and n[0] == "eq" and i_par in (n[1], n[2])):
+                return None, None
+            j = n[2] if n[1] == i_par else n[1]
+            if not (isinstance(j, tuple) and j[0] == "elem"):
+                return None, None
+        excls.add(bool(neg))
+        if not (isinstance(a, tuple) and a[0] == "in" and mir.strip(a[1]) == k and isinstance(a[2], tuple) and a[2][0] == "field" and is_elem(a[2][1], j)):
+            return None, None
         roles.add({"to": "used", "from": "shadowed"}.get(a[2][2]))
+    if len(roles) != 1 or None in roles or len(excls) != 1:
+        return None, None
+    excl = excls.pop()
     for gs in el.cont_paths:
-        # either j == i, or j != i and not contains
-        if len(gs) == 1 and gs[0][1] is True and isinstance(gs[0][0], tuple) and gs[0][0][0] == "eq":
+        # either j == i, or [j != i and] not contains
+        if excl and len(gs) == 1 and gs[0][1] is True and isinstance(gs[0][0], tuple) and gs[0][0][0] == "eq":
             continue
-        if len(gs) == 2 and gs[0][1] is False and gs[1][1] is False:
+        if excl and len(gs) == 2 and gs[0][1] is False and gs[1][1] is False:
             continue
-        return None
-    if len(roles) == 1 and None not in roles:
-        return roles.pop()
-    return None
+        if not excl and len(gs) == 1 and gs[0][1] is False and isinstance(gs[0][0], tuple) and gs[0][0][0] == "in":
+            continue
+        return None, None
+    return roles.pop(), excl
 
 
 def remove_mapping_spec(val):
